@@ -43,6 +43,9 @@ def take (s : String) (n : Nat) : String := String.ofList (s.toList.take n)
 def dropFrom (s : String) (n : Nat) : Option String :=
   if n ≤ s.toList.length then some (String.ofList (s.toList.drop n)) else none
 
+/-- `strings.ToLower` on ASCII (core `String.toLower` does not reduce in the kernel). -/
+def toLower (s : String) : String := String.ofList (s.toList.map Char.toLower)
+
 /-- `xs[i]`; out of range is a Go panic: `none`. -/
 def «at» {α : Type} (xs : List α) (i : Nat) : Option α := xs[i]?
 
